@@ -53,6 +53,8 @@ class Chooser:
             raise HarnessError(f"more than {self.max_points} choice points in one execution")
         if i < len(self.prefix):
             c = self.prefix[i]
+            if c >= n and getattr(self, "scripted", False):
+                c = c % n  # a scripted probe (not a replay of a recorded execution): the script is a policy, folded into the range
             if c >= n:
                 raise HarnessError(
                     f"NONDETERMINISM: replayed answer {c} out of range for arity {n} ({kind}) at point {i}"
